@@ -525,3 +525,32 @@ B("B102", "C12-B", [(SYM, "        result_seeds.append(cast(BooleanSpace, attr_s
   "fallback records sets only for complex attractors")
 B("B103", "C12-C", [(SD, "                    self, node_id, candidate_states=seeds\n", "                    self, node_id, candidate_states=self.node_attractor_candidates(node_id, compute=True)\n")],
   "sets recomputed from candidates instead of the node's seeds (order no longer follows the seeds)")
+
+
+# ------------------------------------------------------------------------------------------ C06 / C07
+B("B47", "C06-D1", [(CTRL, "                if target_trap_space.items() <= ldoi.items():\n                    drivers.append(driver_dict)\n            elif",
+                     "                if ldoi.items() <= target_trap_space.items():\n                    drivers.append(driver_dict)\n            elif")],
+  "acceptance test reversed (internal strategy)")
+B("B47b", "C06-D1", [(CTRL, "                    ldoi = percolate_space(bn, driver_dict | assume_fixed)\n                    if target_trap_space.items() <= ldoi.items():",
+                      "                    ldoi = percolate_space(bn, driver_dict)\n                    if target_trap_space.items() <= (ldoi | assume_fixed).items():")],
+  "already fixed values not percolated together with the drivers (strategy all)")
+B("B48", "C06-D2", [(CTRL, "        assume_fixed.update(ldoi)\n", "")], "percolation of a step not accumulated")
+B("B49a", "C06-D3", [(CTRL, "        if not is_consistent or (not is_goal and is_minimal):", "        if not is_consistent or not is_goal:")],
+  "every node outside the target is hot (and is_minimal dropped)")
+B("B49b", "C06-D3", [(CTRL, "        descendant_map[s].add(s)  # for our purposes, s is its own descendant\n", "")], "node not its own descendant")
+B("B49c", "C06-D3", [(CTRL, 'is_goal = is_subspace(succession_diagram.node_data(s)["space"], target)', 'is_goal = is_subspace(target, succession_diagram.node_data(s)["space"])')],
+  "goal test with swapped arguments")
+B("B50a", "C07-D4", [(CTRL, "        driver_pool = set(bn.network_variable_names()) - forbidden_drivers", "        driver_pool = set(bn.network_variable_names())")],
+  "forbidden drivers ignored by strategy all")
+B("B50b", "C07-D4", [(CTRL, "    for driver_set_size in range(max_drivers_per_succession_node + 1):", "    for driver_set_size in range(max_drivers_per_succession_node):")],
+  "size bound excluded")
+B("B51", "C07-D5", [(TGT, "            if is_subspace(node_space, target) and not node_space == target:", "            if is_subspace(node_space, target):")],
+  "node equal to the target left unexpanded")
+B("B104", "C07-D4", [(CTRL, "        if not successful_only or intervention.successful:", "        if successful_only and intervention.successful:")],
+  "unsuccessful interventions never returned")
+B("B105", "C07-D6", [(CTRL, "                succession_diagram.edge_all_stable_motifs(x, y, reduced=True)\n                for x, y in zip(path[:-1], path[1:])",
+                      "                succession_diagram.edge_all_stable_motifs(x, y, reduced=True)\n                for x, y in zip(path[:-2], path[1:])")],
+  "last edge of every path dropped")
+B("B106", "C07-D4", [(CTRL, "            if any(set(d) <= set(driver_set) for d in drivers):", "            if any(set(d) >= set(driver_set) for d in drivers):")],
+  "minimality filter reversed")
+V("V107", "De Morgan of the hot-lava predicate", edits=[(CTRL, "        if not is_consistent or (not is_goal and is_minimal):", "        if not (is_consistent and (is_goal or not is_minimal)):")])
